@@ -18,7 +18,7 @@ func init() {
 	register(&Scenario{Name: "shut-bus", Prop: "C10", Faulty: true, Doc: "internal/minibus directly: 1-3 sender tasks, 0-8 listeners with consumer tasks (some abandon), canceller tasks placed by the scheduler at any step incl. inside Send/Listen windows; exactly-once for listeners live for the whole send, per-sender order, no stalled sender, no panic, no leaked goroutine",
 		Run:  shutBusRun,
 		Real: []string{"internal/minibus Bus/listener"}, Stub: []string{"sender/consumer/canceller tasks"}})
-	register(&Scenario{Name: "shut-res", Prop: "C10", Faulty: true, Doc: "Value/Collection with 0-2 writers and 1-5 Pull/PullID subscriptions with mixed options; consumers keep receiving or abandon; cancellers placed anywhere; after cancel the channel is closed at the next receive, writers are not stalled, PullID ends on removal, surviving subscribers still converge, nothing leaks",
+	register(&Scenario{Name: "shut-res", Prop: "C10", Faulty: true, Doc: "Value/Collection with 0-3 writers and 1-5 Pull/PullID subscriptions with mixed options; consumers keep receiving or abandon; cancellers placed anywhere; after cancel the channel is closed at the next receive, writers are not stalled, PullID ends on removal, surviving subscribers still converge, nothing leaks",
 		Run:  shutResRun,
 		Real: []string{"pkg/resource Value/Collection Pull/PullID", "internal/minibus", "DropExcess", "mergeCollectionExcess"}, Stub: []string{"writer/consumer/canceller tasks"}})
 }
